@@ -12,12 +12,33 @@ pub enum Top {
     Para(Vec<PSeg>),
 }
 
+/// Lines with their terminator. A line ends at LF or at CR, each on its own (CR LF is a line end followed by an
+/// empty line; the generators produce CR only as the terminator of the last line of a document).
+fn lines_inclusive(text: &str) -> Vec<&str> {
+    let mut out = Vec::new();
+    let mut start = 0;
+    for (i, c) in text.char_indices() {
+        if c == '\n' || c == '\r' {
+            out.push(&text[start..i + 1]);
+            start = i + 1;
+        }
+    }
+    if start < text.len() {
+        out.push(&text[start..]);
+    }
+    out
+}
+
+fn strip_terminator(l: &str) -> &str {
+    l.strip_suffix('\n').or_else(|| l.strip_suffix('\r')).unwrap_or(l)
+}
+
 fn decode_value(entry_text: &str, name: &str) -> String {
     // strip "name:" then per line strip leading spaces/tabs and the terminator
     let rest = &entry_text[name.len() + 1..];
     let mut lines = Vec::new();
-    for l in rest.split_inclusive('\n') {
-        let l = l.strip_suffix('\n').unwrap_or(l);
+    for l in lines_inclusive(rest) {
+        let l = strip_terminator(l);
         lines.push(l.trim_start_matches([' ', '\t']).to_string());
     }
     if lines.is_empty() {
@@ -59,11 +80,8 @@ pub fn segment(text: &str) -> Option<Vec<Top>> {
             }
         }
     };
-    for line in text.split_inclusive('\n') {
-        let body = line.strip_suffix('\n').unwrap_or(line);
-        if body.contains('\r') {
-            return None;
-        }
+    for line in lines_inclusive(text) {
+        let body = strip_terminator(line);
         if body.is_empty() {
             flush(&mut run, &mut out);
             out.push(Top::Blank(line.to_string()));
